@@ -48,6 +48,7 @@ void sym_inputs(void)
 #ifdef REPLAY
 #include "replay_inputs.inc"
 #else
+  SYM_FEED();
   SYM_ARR(env); SYM(in_read_err_at); SYM(fail_at); SYM_ARR(choice); SYM_ARR(pre_exists); SYM(in_reply);
 #endif
 }
